@@ -127,7 +127,7 @@ def linked_pairs(draw, graph):
 
 
 @st.composite
-def mixed_case(draw, tier, ne_share=3, families=("simple", "simple_n", "distance"), config_kw=None, graph_kw=None, trace_kw=None,
+def mixed_case(draw, tier, ne_share=3, families=base.FAMILIES4, config_kw=None, graph_kw=None, trace_kw=None,
                min_len=1):
     """General case, with ~ne_share/10 of the cases built so that non-emitting states are needed."""
     sz = gen.sizes(tier)
